@@ -68,7 +68,7 @@ def iff(a, b):
 
 def eq(a, b, tol=1e-9):
     """Equality over the reals; natively: relative/absolute closeness (floating point)."""
-    if isinstance(a, (tuple, list)) or hasattr(a, "shape"):
+    if isinstance(a, (tuple, list)) or getattr(a, "shape", ()) != ():
         a, b = list(a), list(b)
         return len(a) == len(b) and all(eq(x, y, tol) for x, y in zip(a, b))
     if a is None or b is None:
@@ -79,6 +79,9 @@ def eq(a, b, tol=1e-9):
 
 
 def new(cls, **attrs):
+    if getattr(cls, "__abstractmethods__", None):
+        cls = type(cls.__name__, (cls,), {})
+        cls.__abstractmethods__ = frozenset()
     o = cls.__new__(cls)
     for k, v in attrs.items():
         object.__setattr__(o, k, v)
@@ -99,3 +102,63 @@ def is_none(x):
 
 def same(a, b):
     return a is b
+
+
+# ---- symbolic-length inputs: natively drawn from the runner's RNG or taken from a replayed model
+_inputs = {}
+_rng = None
+
+
+def _num(v):
+    if isinstance(v, list) and len(v) == 2 and all(isinstance(x, int) for x in v):
+        return v[0] / v[1]
+    return v
+
+
+def sym_list(kind="real", name="L", mono=False, maxlen=6):
+    if name in _inputs:
+        v = _inputs[name]
+        if isinstance(v, dict):
+            raise Skip()  # model with a huge list: not replayable concretely
+        return [_num(x) for x in v]
+    import random
+
+    r = _rng or random
+    n = r.randint(0, maxlen)
+    if kind == "int":
+        out = [r.randint(-9, 9) for _ in range(n)]
+    elif kind == "bool":
+        out = [r.random() < 0.5 for _ in range(n)]
+    else:
+        out = [r.choice([r.uniform(-10, 10), float(r.randint(-3, 3)), r.uniform(0, 1)]) for _ in range(n)]
+    if mono:
+        out = sorted(set(out))
+    return out
+
+
+def sym_int(name="n"):
+    if name in _inputs:
+        return _inputs[name]
+    import random
+
+    return (_rng or random).randint(-20, 20)
+
+
+def sym_real(name="x"):
+    if name in _inputs:
+        return _num(_inputs[name])
+    import random
+
+    return (_rng or random).uniform(-10, 10)
+
+
+def sym_bool(name="b"):
+    if name in _inputs:
+        return bool(_inputs[name])
+    import random
+
+    return (_rng or random).random() < 0.5
+
+
+def psum(seq, k):
+    return sum(seq[:k])
